@@ -192,7 +192,7 @@ class Ctx:
         viol = list(uniq.values())
         for i, v in enumerate(viol):
             out_viol += 1
-            rp = os.path.join(REPLAY, "%s-%s-%d.json" % (self.prop, v["rule"], i))
+            rp = os.path.join(REPLAY, "%s-%s-%d.json" % (self.prop, re.sub(r"[^A-Za-z0-9_.@-]", "_", v["rule"]), i))
             with open(rp, "w") as fh:
                 json.dump(v, fh, indent=1, default=str)
             print("VIOLATION property=%s replay=%s" % (self.prop, rp))
